@@ -13,7 +13,7 @@ pub mod a5 {
       relation r2(i64, i64);
       relation r3(i64, i64);
       relation r4(i64, i64);
-      relation r5(i64);
+      relation r5(i64, i64);
       relation r6(i64, i64);
       r1(v1) <-- if let Some(v0) = None::<i64>, r0(v0, v0) if (v0 < 3) let v1 = (v0 + 0);
       r2(v0, v1) <-- r1(2), r3(v0, v1);
@@ -22,8 +22,8 @@ pub mod a5 {
       r4(v0, v1) <-- for v9 in 0..3, r0(v0, v1), r4(v9, v1);
       r4(v0, v8) <-- if let Some(v9) = Some(1), r2(v0, v1), r4(v1, v9) let v8 = ((*v0) + 1);
       r4(v0, v0) <-- r1(v0) if ((*v0) <= 2);
-      r5(v0) <-- r1(v0), agg () = not() in r2(_, _);
-      r6(v0, v21) <-- r3(v0, v1), agg v21 = min(v20) in r3(0, v20);
+      r5(v0, 0) <-- r1(v0), agg () = not() in r2(_, _);
+      r6(v1, 0) <-- r3(v0, v1), r3(v32, v0), r0(v33, v32), agg () = not() in r1((*v33));
    }
    pub struct Inst { p: Prog, pool: Option<ascent::rayon::ThreadPool> }
    pub fn make(pool: Option<usize>) -> Box<dyn Driver> {
@@ -39,13 +39,14 @@ pub mod a5 {
          2 => { let v: Vec<(i64,i64,)> = parse_rows(rows)?; if append { self.p.r2.extend(v) } else { self.p.r2 = v } },
          3 => { let v: Vec<(i64,i64,)> = parse_rows(rows)?; if append { self.p.r3.extend(v) } else { self.p.r3 = v } },
          4 => { let v: Vec<(i64,i64,)> = parse_rows(rows)?; if append { self.p.r4.extend(v) } else { self.p.r4 = v } },
-         5 => { let v: Vec<(i64,)> = parse_rows(rows)?; if append { self.p.r5.extend(v) } else { self.p.r5 = v } },
+         5 => { let v: Vec<(i64,i64,)> = parse_rows(rows)?; if append { self.p.r5.extend(v) } else { self.p.r5 = v } },
          6 => { let v: Vec<(i64,i64,)> = parse_rows(rows)?; if append { self.p.r6.extend(v) } else { self.p.r6 = v } },
             _ => return None,
          }
          Some(())
       }
       fn run(&mut self) { match &self.pool { Some(pl) => { let p = &mut self.p; pl.install(|| p.run()) }, None => self.p.run() } }
+      fn run_here(&mut self) { self.p.run() }
       fn run_timeout(&mut self, k: usize) -> Option<bool> { let _ = k; None }
       fn dump(&self) -> String { vec![dump_rel(0, self.p.r0.iter().map(Row::render).collect()), dump_rel(1, self.p.r1.iter().map(Row::render).collect()), dump_rel(2, self.p.r2.iter().map(Row::render).collect()), dump_rel(3, self.p.r3.iter().map(Row::render).collect()), dump_rel(4, self.p.r4.iter().map(Row::render).collect()), dump_rel(5, self.p.r5.iter().map(Row::render).collect()), dump_rel(6, self.p.r6.iter().map(Row::render).collect())].join(" | ") }
       fn iters(&self) -> String { format!("iters {}", self.p.scc_iters.iter().map(|x| x.to_string()).collect::<Vec<_>>().join(" ")) }
@@ -64,14 +65,14 @@ pub mod a13 {
       relation r1(i64, i64);
       relation r2(i64, i64);
       relation r3(i64, i64);
-      relation r4(i64, i64);
-      relation r5(i64, i64);
+      relation r4(i64);
+      relation r5(i64);
       relation r6(i64, i64);
       r3(v0, v1) <-- let v9 = 2, r0(v0, v1), r3(v1, v9);
       r3(2, 2);
-      r4(v0, v21) <-- r1(v0, v1), agg v21 = min(v20) in r2((*v1), v20);
-      r5(v1, 0) <-- r0(v0, v1), agg () = not() in r4(_, _);
-      r6(v0, v21) <-- r0(v0, v1), agg v21 = min(v20) in r4((*v0), v20);
+      r4(v1) <-- r1(v0, v1), agg v21 = min(v20) in r2(v20, (*v1));
+      r5(v1) <-- r2(v0, v1), r1(v0, v0), r0(v0, v32), agg () = not() in r3((*v32), (*v0));
+      r6(v0, (v21 as i64)) <-- r0(v0, v1), agg v21 = count() in r2(0, _);
    }
    pub struct Inst { p: Prog, pool: Option<ascent::rayon::ThreadPool> }
    pub fn make(pool: Option<usize>) -> Box<dyn Driver> {
@@ -86,14 +87,15 @@ pub mod a13 {
          1 => { let v: Vec<(i64,i64,)> = parse_rows(rows)?; if append { self.p.r1.extend(v) } else { self.p.r1 = v } },
          2 => { let v: Vec<(i64,i64,)> = parse_rows(rows)?; if append { self.p.r2.extend(v) } else { self.p.r2 = v } },
          3 => { let v: Vec<(i64,i64,)> = parse_rows(rows)?; if append { self.p.r3.extend(v) } else { self.p.r3 = v } },
-         4 => { let v: Vec<(i64,i64,)> = parse_rows(rows)?; if append { self.p.r4.extend(v) } else { self.p.r4 = v } },
-         5 => { let v: Vec<(i64,i64,)> = parse_rows(rows)?; if append { self.p.r5.extend(v) } else { self.p.r5 = v } },
+         4 => { let v: Vec<(i64,)> = parse_rows(rows)?; if append { self.p.r4.extend(v) } else { self.p.r4 = v } },
+         5 => { let v: Vec<(i64,)> = parse_rows(rows)?; if append { self.p.r5.extend(v) } else { self.p.r5 = v } },
          6 => { let v: Vec<(i64,i64,)> = parse_rows(rows)?; if append { self.p.r6.extend(v) } else { self.p.r6 = v } },
             _ => return None,
          }
          Some(())
       }
       fn run(&mut self) { match &self.pool { Some(pl) => { let p = &mut self.p; pl.install(|| p.run()) }, None => self.p.run() } }
+      fn run_here(&mut self) { self.p.run() }
       fn run_timeout(&mut self, k: usize) -> Option<bool> { let _ = k; None }
       fn dump(&self) -> String { vec![dump_rel(0, self.p.r0.iter().map(Row::render).collect()), dump_rel(1, self.p.r1.iter().map(Row::render).collect()), dump_rel(2, self.p.r2.iter().map(Row::render).collect()), dump_rel(3, self.p.r3.iter().map(Row::render).collect()), dump_rel(4, self.p.r4.iter().map(Row::render).collect()), dump_rel(5, self.p.r5.iter().map(Row::render).collect()), dump_rel(6, self.p.r6.iter().map(Row::render).collect())].join(" | ") }
       fn iters(&self) -> String { format!("iters {}", self.p.scc_iters.iter().map(|x| x.to_string()).collect::<Vec<_>>().join(" ")) }
